@@ -43,6 +43,11 @@ impl WeightedMean {
         // and
         // http://people.ds.cam.ac.uk/fanf2/hermes/doc/antiforgery/stats.pdf.
         self.weight_sum += weight;
+        if self.weight_sum == 0. {
+            // Only zero weights so far: the weighted mean is still undefined and
+            // `weight / weight_sum` would be NaN, poisoning all later updates.
+            return;
+        }
 
         let prev_avg = self.weighted_avg;
         self.weighted_avg = prev_avg + (weight / self.weight_sum) * (sample - prev_avg);
